@@ -1,6 +1,7 @@
 package main
 
 import (
+	"errors"
 	"fmt"
 	"go/token"
 	"go/types"
@@ -19,6 +20,9 @@ import (
 type ErrV struct {
 	Msg StrV
 	id  int
+	// Range: for an error made by the ParseFloat stub, whether it is a range error (Bool term);
+	// the zero Term otherwise
+	Range Term
 }
 
 // ReflVal is the result of the reflect.ValueOf stub (only Pointer() is modelled).
@@ -50,6 +54,10 @@ func (w *Worker) loadExtern(st *State, e Extern, t types.Type) Value {
 		return w.osArgs(st)
 	case "&io.EOF":
 		return eofUnion()
+	case "&strconv.ErrRange":
+		return mkUnion(synthErrType, ErrV{Msg: strLit("value out of range"), id: -2})
+	case "&strconv.ErrSyntax":
+		return mkUnion(synthErrType, ErrV{Msg: strLit("invalid syntax"), id: -3})
 	}
 	panic(engineErr("load of foreign global " + e.name))
 }
@@ -343,49 +351,90 @@ func (w *Worker) fmtArg(st *State, a *Union, verb byte) StrV {
 
 // sprintf implements the subset of format strings the repo uses.
 func (w *Worker) sprintf(st *State, format string, args []Value) StrV {
+	out, _ := w.sprintfSegs(st, strLit(format).Segs, args)
+	return out
+}
+
+// sprintfSegs formats with a format string given as segments. Literal segments are scanned for
+// directives; symbolic segments are copied through (the caller has established that they hold
+// no '%'). Flags and widths are skipped; a verb outside the modelled set — which is what a
+// '%' inside a message that was never meant to be a format produces — yields an opaque piece of
+// text and consumes its argument, exactly as fmt does ("%!x(int=4)"); the native replay
+// supplies the exact characters. The second result is the argument consumed by the first %d
+// (the repo's diagnostics carry their line number that way), or nil.
+func (w *Worker) sprintfSegs(st *State, segs []Seg, args []Value) (StrV, *Union) {
 	out := StrV{}
 	ai := 0
-	for i := 0; i < len(format); i++ {
-		c := format[i]
-		if c != '%' {
-			j := i
-			for j < len(format) && format[j] != '%' {
-				j++
+	var lineArg *Union
+	for si := 0; si < len(segs); si++ {
+		if segs[si].K != SegLit {
+			out = strCat(out, StrV{[]Seg{segs[si]}})
+			continue
+		}
+		format := segs[si].Lit
+		for i := 0; i < len(format); i++ {
+			c := format[i]
+			if c != '%' {
+				j := i
+				for j < len(format) && format[j] != '%' {
+					j++
+				}
+				out = strCat(out, strLit(format[i:j]))
+				i = j - 1
+				continue
 			}
-			out = strCat(out, strLit(format[i:j]))
-			i = j - 1
-			continue
-		}
-		i++
-		if i >= len(format) {
-			out = strCat(out, strLit("%!(NOVERB)"))
-			break
-		}
-		if format[i] == '#' { // %#v: only used in debugging code
 			i++
-		}
-		verb := format[i]
-		if verb == '%' {
-			out = strCat(out, strLit("%"))
-			continue
-		}
-		if ai >= len(args) {
-			out = strCat(out, strLit("%!"+string(verb)+"(MISSING)"))
-			continue
-		}
-		a := args[ai].(*Union)
-		ai++
-		switch verb {
-		case 'v', 's', 'd', 'q', 'T':
-			out = strCat(out, w.fmtArg(st, a, verb))
-		default:
-			panic(engineErr("format verb %" + string(verb)))
+			plain := true
+			for i < len(format) && strings.IndexByte("#0+- .123456789", format[i]) >= 0 {
+				if format[i] != '#' {
+					plain = false
+				}
+				i++
+			}
+			if i >= len(format) {
+				if si+1 < len(segs) {
+					panic(engineErr("format directive whose verb is symbolic"))
+				}
+				out = strCat(out, strLit("%!(NOVERB)"))
+				break
+			}
+			verb := format[i]
+			if verb == '%' && plain {
+				out = strCat(out, strLit("%"))
+				continue
+			}
+			if verb >= 0x80 {
+				// a multi-byte verb: skip its continuation bytes
+				for i+1 < len(format) && format[i+1]&0xC0 == 0x80 {
+					i++
+				}
+			}
+			if ai >= len(args) {
+				if verb < 0x80 {
+					out = strCat(out, strLit("%!"+string(verb)+"(MISSING)"))
+				} else {
+					out = strCat(out, StrV{[]Seg{{K: SegAtom, T: st.fresh(STxt)}}})
+				}
+				continue
+			}
+			a := args[ai].(*Union)
+			ai++
+			switch {
+			case plain && (verb == 'v' || verb == 's' || verb == 'd' || verb == 'q' || verb == 'T'):
+				if verb == 'd' && lineArg == nil {
+					lineArg = a
+				}
+				out = strCat(out, w.fmtArg(st, a, verb))
+			default:
+				// bad verb or flags the model does not render: "%!verb(type=value)" / padded text
+				out = strCat(out, StrV{[]Seg{{K: SegAtom, T: st.fresh(STxt)}}})
+			}
 		}
 	}
 	if ai < len(args) {
 		out = strCat(out, strLit("%!(EXTRA …)"))
 	}
-	return out
+	return out, lineArg
 }
 
 func (w *Worker) sprint(st *State, args []Value, ln bool) StrV {
@@ -455,10 +504,6 @@ func (w *Worker) intrinsic(st *State, f *Frame, x ssa.Value, callee *ssa.Functio
 		w.emit(st, EvStdout, w.sprintf(st, fs, st.sliceElems(args[1].(SliceV))), fs, mkBV(0, 64), mkBV(0, 64))
 		set(Tuple{mkBV(0, 64), nilUnion()})
 	case "fmt.Fprintf":
-		fs, ok := constString(args[1])
-		if !ok {
-			panic(engineErr("Fprintf with symbolic format"))
-		}
 		wr := args[0].(*Union)
 		k, okk := wr.constKind()
 		if !okk {
@@ -474,20 +519,61 @@ func (w *Worker) intrinsic(st *State, f *Frame, x ssa.Value, callee *ssa.Functio
 		default:
 			panic(engineErr("Fprintf to unknown writer"))
 		}
-		line := mkBV(0, 64)
-		// the repo's two diagnostic formats carry the line as a %d argument
-		if di := strings.Index(fs, "%d"); di >= 0 {
-			n := strings.Count(fs[:di], "%")
-			if n < len(fa) {
-				u := fa[n].(*Union)
-				if kk, ok := u.constKind(); ok {
-					if t, ok := u.P[kk].(Term); ok && t.Sort == SBV64 {
-						line = t
-					}
+		fsV := args[1].(StrV)
+		fs, _ := constString(args[1])
+		// a format that is not a constant (a message used as the format): the symbolic code
+		// points in it either are all different from '%' — then they are copied through — or
+		// one of them is a '%': that path continues with an opaque text and an unknown line,
+		// and the native replay decides what fmt really printed
+		var none []Term
+		opaque := false
+		for _, g := range fsV.Segs {
+			switch g.K {
+			case SegRune:
+				none = append(none, mkNot(mkEq(g.T, mkBV('%', 32))))
+			case SegAtom:
+				if !asciiAtom(g.T) {
+					opaque = true
 				}
 			}
 		}
-		w.emit(st, kind, w.sprintf(st, fs, fa), fs, mkBV(0, 64), line)
+		if len(none) > 0 || opaque {
+			condNone := mkAnd(none...)
+			canNone, canSome := true, opaque
+			if len(none) > 0 {
+				var cs bool
+				canNone, cs = w.branch(st, condNone)
+				canSome = canSome || cs
+			}
+			if canSome {
+				o := st
+				if canNone {
+					o = st.clone()
+				}
+				if len(none) > 0 && !opaque {
+					o.assume(mkNot(condNone))
+				}
+				w.emit(o, kind, StrV{[]Seg{{K: SegAtom, T: o.fresh(STxt)}}}, "", mkBV(0, 64), o.fresh(SBV64))
+				if x != nil {
+					o.top().env[x] = Tuple{mkBV(0, 64), nilUnion()}
+				}
+				if !canNone {
+					return true
+				}
+				w.push(o)
+			}
+			st.assume(condNone)
+		}
+		text, lineArg := w.sprintfSegs(st, fsV.Segs, fa)
+		line := mkBV(0, 64)
+		if lineArg != nil {
+			if kk, ok := lineArg.constKind(); ok {
+				if t, ok := lineArg.P[kk].(Term); ok && t.Sort == SBV64 {
+					line = t
+				}
+			}
+		}
+		w.emit(st, kind, text, fs, mkBV(0, 64), line)
 		set(Tuple{mkBV(0, 64), nilUnion()})
 	case "fmt.Sprintf":
 		fs, ok := constString(args[0])
@@ -507,6 +593,33 @@ func (w *Worker) intrinsic(st *State, f *Frame, x ssa.Value, callee *ssa.Functio
 		set(w.mkErr(st, w.sprintf(st, fs, st.sliceElems(args[1].(SliceV)))))
 	case "errors.New":
 		set(w.mkErr(st, args[0].(StrV)))
+	case "errors.Is":
+		// modelled for the two strconv sentinels against errors made by the ParseFloat stub, and for
+		// identical error objects
+		e, t := args[0].(*Union), args[1].(*Union)
+		ek, tk := kinds.of(synthErrType), kinds.of(synthErrType)
+		tv, tok := t.P[tk].(ErrV)
+		ev, eok := e.P[ek].(ErrV)
+		if _, c := t.constKind(); !c || !tok {
+			panic(engineErr("errors.Is with a target that is not a known sentinel"))
+		}
+		if !eok {
+			set(mkBool(false))
+			break
+		}
+		isErr := e.isKind(ek)
+		switch {
+		case ev.id == tv.id:
+			set(isErr)
+		case tv.id == -2 && ev.Range.S != "":
+			set(mkAnd(isErr, ev.Range))
+		case tv.id == -3 && ev.Range.S != "":
+			set(mkAnd(isErr, mkNot(ev.Range)))
+		case ev.Range.S == "" && tv.id < 0:
+			set(mkBool(false))
+		default:
+			panic(engineErr("errors.Is on errors the model does not relate"))
+		}
 	case "strconv.ParseFloat":
 		w.parseFloat(st, set, args[0].(StrV))
 	case "math.Abs":
@@ -639,6 +752,16 @@ func (w *Worker) intrinsic(st *State, f *Frame, x ssa.Value, callee *ssa.Functio
 				elems[j], elems[j-1] = elems[j-1], elems[j]
 			}
 		}
+	case "strings.Repeat":
+		cnt, ok := args[1].(Term).intVal()
+		if !ok || cnt < 0 || cnt > 100000 {
+			panic(engineErr("strings.Repeat with a symbolic or huge count"))
+		}
+		out := StrV{}
+		for i := int64(0); i < cnt; i++ {
+			out = strCat(out, args[0].(StrV))
+		}
+		set(out)
 	case "strings.Join":
 		out := StrV{}
 		for i, e := range st.sliceElems(args[0].(SliceV)) {
@@ -805,14 +928,29 @@ func (w *Worker) intrinsic(st *State, f *Frame, x ssa.Value, callee *ssa.Functio
 	case "os.ReadFile":
 		w.osReadFile(st, set, args[0].(StrV))
 	case "bufio.NewReader":
-		// a fresh reader with an empty buffer over stdin (A-stdin)
-		id := st.alloc(StructV{mkBV(0, 64)})
+		// a fresh reader with an empty buffer over stdin (A-stdin); field 1: bytes of the
+		// current line already handed out by ReadLine
+		id := st.alloc(StructV{mkBV(0, 64), mkBV(0, 64)})
 		set(Ptr{id: id})
+	case "(*bufio.Reader).ReadLine":
+		w.readerReadLine(st, set, args[0].(Ptr))
 	case "(*bufio.Reader).ReadString":
 		w.readerReadString(st, set, args[0].(Ptr))
 	case "bufio.NewScanner":
-		id := st.alloc(StructV{mkBV(0, 64)})
+		// field 1: the maximum token size (bufio.MaxScanTokenSize until Buffer changes it); field 2: stopped
+		id := st.alloc(StructV{mkBV(0, 64), mkBV(65536, 64), mkBool(false)})
 		set(Ptr{id: id})
+	case "(*bufio.Scanner).Buffer":
+		r := args[0].(Ptr)
+		obj := st.heap[r.id].(StructV)
+		mx, ok := args[2].(Term).intVal()
+		if !ok {
+			panic(engineErr("Scanner.Buffer with a symbolic maximum"))
+		}
+		if c := int64(args[1].(SliceV).cap); c > mx {
+			mx = c
+		}
+		st.heap[r.id] = StructV{obj[0], mkBV(uint64(mx), 64), obj[2]}
 	case "(*bufio.Scanner).Scan":
 		w.scannerScan(st, set, args[0].(Ptr))
 	case "(*bufio.Scanner).Text":
@@ -912,7 +1050,12 @@ func (w *Worker) parseFloat(st *State, set func(Value), s StrV) {
 	if c, ok := s.concrete(); ok {
 		v, err := strconv.ParseFloat(c, 64)
 		if err != nil {
-			set(Tuple{mkFP(v), w.mkErr(st, strLit(err.Error()))})
+			eu := w.mkErr(st, strLit(err.Error()))
+			k := kinds.of(synthErrType)
+			ev := eu.P[k].(ErrV)
+			ev.Range = mkBool(errors.Is(err, strconv.ErrRange))
+			eu.P[k] = ev
+			set(Tuple{mkFP(v), eu})
 		} else {
 			set(Tuple{mkFP(v), nilUnion()})
 		}
@@ -944,6 +1087,25 @@ func (w *Worker) parseFloat(st *State, set func(Value), s StrV) {
 	isD := func(r Term) Term { return mkAnd(bvCmp("bvuge", r, mkBV('0', 32)), bvCmp("bvule", r, mkBV('9', 32))) }
 	dv := func(r Term) Term { return int64ToFP(bvBin("bvsub", bvResize(r, 64, false), mkBV('0', 64), false)) }
 	is := func(r Term, c rune) Term { return mkEq(r, mkBV(uint64(c), 32)) }
+	if n <= 120 {
+		// every accepted text consists of ASCII letters, digits, '.', '+', '-' and '_' only
+		// (decimal and hexadecimal numerals, exponents, "inf", "infinity", "nan")
+		for _, r := range rs {
+			if _, lit := r.bvVal(); lit {
+				v, _ := r.intVal()
+				c := rune(v)
+				if !(c >= '0' && c <= '9' || c >= 'a' && c <= 'z' || c >= 'A' && c <= 'Z' || c == '.' || c == '+' || c == '-' || c == '_') {
+					st.assume(failed)
+				}
+				continue
+			}
+			in := func(lo, hi rune) Term {
+				return mkAnd(bvCmp("bvuge", r, mkBV(uint64(lo), 32)), bvCmp("bvule", r, mkBV(uint64(hi), 32)))
+			}
+			legal := mkOr(in('0', '9'), in('a', 'z'), in('A', 'Z'), is(r, '.'), is(r, '+'), is(r, '-'), is(r, '_'))
+			st.assume(mkImplies(mkNot(legal), failed))
+		}
+	}
 	switch n {
 	case 1:
 		st.assume(mkEq(failed, mkNot(isD(rs[0]))))
@@ -956,19 +1118,29 @@ func (w *Worker) parseFloat(st *State, set func(Value), s StrV) {
 		minusD := mkAnd(is(rs[0], '-'), isD(rs[1]))
 		st.assume(mkEq(failed, mkNot(mkOr(dd, dDot, dotD, plusD, minusD))))
 	default:
-		if n <= 19 {
+		if n <= 120 {
 			all := make([]Term, n)
 			acc := mkBV(0, 64)
 			for i, r := range rs {
 				all[i] = isD(r)
-				d := bvBin("bvsub", bvResize(r, 64, false), mkBV('0', 64), false)
-				// acc*10 as shifts and adds (cheap to bit-blast); <= 19 digits fit in 64 bits unsigned
-				acc = bvBin("bvadd", bvBin("bvadd", bvBin("bvshl", acc, mkBV(3, 64), false), bvBin("bvshl", acc, mkBV(1, 64), false), false), d, false)
+				if n <= 19 && st.opts["parsefloat-exact-integers"] {
+					d := bvBin("bvsub", bvResize(r, 64, false), mkBV('0', 64), false)
+					// acc*10 as shifts and adds (cheap to bit-blast); <= 19 digits fit in 64 bits unsigned.
+					// Each partial sum gets a name: acc occurs twice per step, so the unnamed term
+					// would double in size with every digit.
+					next := bvBin("bvadd", bvBin("bvadd", bvBin("bvshl", acc, mkBV(3, 64), false), bvBin("bvshl", acc, mkBV(1, 64), false), false), d, false)
+					if _, isConst := next.bvVal(); isConst || i == 0 {
+						acc = next
+					} else {
+						acc = st.fresh(SBV64)
+						st.assume(mkEq(acc, next))
+					}
+				}
 			}
-			st.assume(mkImplies(mkAnd(all...), mkNot(failed)))
-			// digits '.' digits (a point with at least one digit on each side) never fails
-			// either: no syntax error, and far from the range limits at this length
-			var shapes []Term
+			// a numeral of digits, or digits '.' digits (a point with at least one digit on each
+			// side), is syntactically valid and — at these lengths — far below the range limit:
+			// it never fails, and its value is a finite non-negative number (never NaN)
+			shapes := []Term{mkAnd(all...)}
 			for p := 1; p+1 < n; p++ {
 				cs := make([]Term, n)
 				for i, r := range rs {
@@ -980,10 +1152,10 @@ func (w *Worker) parseFloat(st *State, set func(Value), s StrV) {
 				}
 				shapes = append(shapes, mkAnd(cs...))
 			}
-			if len(shapes) > 0 {
-				st.assume(mkImplies(mkOr(shapes...), mkNot(failed)))
-			}
-			if st.opts["parsefloat-exact-integers"] {
+			numeral := mkOr(shapes...)
+			st.assume(mkImplies(numeral, mkNot(failed)))
+			st.assume(mkImplies(numeral, mkNot(Term{S: "(fp.isNaN " + val.S + ")", Sort: SBool, Syms: val.Syms})))
+			if n <= 19 && st.opts["parsefloat-exact-integers"] {
 				// the correctly rounded value of an integer numeral: round-to-nearest-even of its
 				// exact (unsigned 64-bit) value — the documented contract of strconv.ParseFloat
 				exact := Term{S: "((_ to_fp_unsigned 11 53) RNE " + acc.S + ")", Sort: SFP, Syms: acc.Syms}
@@ -991,7 +1163,75 @@ func (w *Worker) parseFloat(st *State, set func(Value), s StrV) {
 			}
 		}
 	}
+	if n > 120 && n <= 400 {
+		// long integer numerals and the range limit (MaxFloat64 = 1.797…e308): 310 or more
+		// digits with a non-zero lead, or 309 digits with a lead of 2 or more, are out of range
+		// (ParseFloat reports ErrRange); a numeral whose digits before the last 308 are all
+		// zeros is below 1e308 and never fails
+		all := make([]Term, n)
+		for i, r := range rs {
+			all[i] = isD(r)
+		}
+		allD := mkAnd(all...)
+		if n >= 310 {
+			st.assume(mkImplies(mkAnd(allD, mkNot(is(rs[0], '0'))), failed))
+		}
+		if n == 309 {
+			st.assume(mkImplies(mkAnd(allD, bvCmp("bvuge", rs[0], mkBV('2', 32))), failed))
+		}
+		if n >= 309 {
+			zs := []Term{allD}
+			for i := 0; i < n-308; i++ {
+				zs = append(zs, is(rs[i], '0'))
+			}
+			st.assume(mkImplies(mkAnd(zs...), mkNot(failed)))
+		} else {
+			st.assume(mkImplies(allD, mkNot(failed)))
+		}
+		st.assume(mkImplies(allD, mkNot(Term{S: "(fp.isNaN " + val.S + ")", Sort: SBool, Syms: val.Syms})))
+	}
 	errU := w.mkErr(st, strLit("strconv.ParseFloat: parsing: invalid syntax or out of range"))
+	{
+		// which of the two failures it is: a text made of digits and at most one '.' is
+		// syntactically fine, so it can only fail by range
+		rName := fmt.Sprintf("pfR%d", n)
+		declareUF(rName, fmt.Sprintf("(declare-fun %s (%s) Bool)", rName, bv32))
+		isRange := app(SBool, rName, rs...)
+		if n <= 400 {
+			var ds, dots []Term
+			for _, r := range rs {
+				ds = append(ds, mkOr(isD(r), is(r, '.')))
+				dots = append(dots, is(r, '.'))
+			}
+			atMostOneDot := mkBool(true)
+			if n <= 20 {
+				var pairs []Term
+				for i := 0; i < n; i++ {
+					for j := i + 1; j < n; j++ {
+						pairs = append(pairs, mkNot(mkAnd(dots[i], dots[j])))
+					}
+				}
+				atMostOneDot = mkAnd(pairs...)
+			} else {
+				// long texts: only all-digit numerals are classified
+				ds = ds[:0]
+				for _, r := range rs {
+					ds = append(ds, isD(r))
+				}
+			}
+			st.assume(mkImplies(mkAnd(mkAnd(ds...), atMostOneDot, mkOr(func() []Term {
+				var o []Term
+				for _, r := range rs {
+					o = append(o, isD(r))
+				}
+				return o
+			}()...)), isRange))
+		}
+		k := kinds.of(synthErrType)
+		ev := errU.P[k].(ErrV)
+		ev.Range = isRange
+		errU.P[k] = ev
+	}
 	errU.Tag = mkIte(failed, errU.Tag, mkBV(KNil, 8))
 	// on failure ParseFloat returns 0 for syntax errors and ±Inf for range errors: leave the value free but irrelevant
 	set(Tuple{val, errU})
